@@ -5,6 +5,7 @@ CONSTANTS
   Fuel = 80
   Prods = {"app", "let", "arith", "div", "str", "br", "data", "pair", "codata", "fix"}
   Faults = {}
+  Root = "os"
   BindTys = {"int", "B", "pii", "tS"}
   IntLits = {1, 2}
 INVARIANTS GenSound TypeSafety Report
